@@ -1,3 +1,164 @@
-(* placeholder while the harness is being brought up: statements follow *)
-From Coq Require Import String List.
-From DL Require Import Dec.FrontEnd Gen.GenLayout.
+(* C02 — Layout, comments, line ends and file packaging never change what is parsed.
+
+   Model: Dec/Layout.v (the constructor's text assembly; the scanner), Dec/ItemParser.v (the statement automaton),
+   Dec/FrontEnd.v (their composition parse_text / parse_files), over the REGENERATED configuration Gen/GenLayout.v
+   (character classes of LABEL and WS_INLINE, MODEL_NAME alternation, the encoding files are opened with).
+
+   "Two inputs that differ only in layout" is made precise by two relations:
+     spell its s        — the text s spells the item list its: any white space between items (none needed next to a
+                          separator), every line end written LF or CR LF, comments (one more line end each) before a line
+                          end or at the end of the text;
+     file_items ss its  — the item list is a layout of the statement list ss: any number of line ends before, between and
+                          after statements and decay lines, line ends and commas anywhere inside a started parameter list,
+                          repeated semicolons, an optional final End line.
+   Every query of DecFileParser is computed from the parsed statements (models: Dec/Post.v, Dec/Queries.v, Dec/Tables.v ...),
+   so equality of the statement lists is equality of every answer (C02_every_query).
+
+   PARTIAL: (1) the scanner/automaton are a hand-written model of Lark's contextual lexer + LALR driver, tied by the
+   correspondence of py/c02.py (model vs the tree Lark builds, on every generated and fixture text), not by a theorem;
+   (2) words the lexer would cut in two are outside the modelled domain (the hypotheses param_ok / plain / is_num exclude them);
+   (3) the hypothesis of C02_packaging is stated on the kept lines of the files; that dropping End lines is harmless is
+   FALSE for one input shape — a parameter that is the word End alone on a wrapped line (finding F16b, refuted below).  *)
+From Coq Require Import String Ascii List Bool Arith.
+From DL Require Import Dec.ModelName Dec.Num Dec.Syntax Dec.Layout Dec.ItemParser Dec.FrontEnd
+                       Dec.LayoutProofs Dec.ItemParserProofs Dec.FrontEndProofs Gen.GenLayout.
+Import ListNotations.
+Open Scope string_scope.
+
+(* ---- (T) the facts the proofs use about the regenerated configuration ---- *)
+Fixpoint forall_chars (f : ascii -> bool) (s : string) : bool :=
+  match s with EmptyString => true | String c r => f c && forall_chars f r end.
+Definition is_class (c : lexcfg) (k : cclass) (ch : ascii) : bool :=
+  match classify (lc_label c) (lc_ws c) ch, k with
+  | CLabel, CLabel | CWs, CWs | CHash, CHash | CLf, CLf | CCr, CCr | CSemi, CSemi | CComma, CComma | CColon, CColon | CEq, CEq | COther, COther => true
+  | _, _ => false
+  end.
+Definition cfg_ok (c : lexcfg) : bool :=
+  forall_chars (is_class c CLabel) "abcdefghijklmnopqrstuvwxyzABCDEFGHIJKLMNOPQRSTUVWXYZ0123456789/-+*_().'~"
+  && is_class c CWs " " && is_class c CWs TAB && is_class c CHash "#" && is_class c CLf LF && is_class c CCr CR
+  && is_class c CSemi ";" && is_class c CComma "," && is_class c CColon ":" && is_class c CEq "="
+  && match mclass (lc_kind c) (lc_alts c) "PHOTOS" with WPlain => true | _ => false end
+  && match mclass (lc_kind c) (lc_alts c) "PHSP" with WModel => true | _ => false end
+  && lc_sig c.
+
+Theorem C02_config : cfg_ok gen_cfg = true.
+Proof. vm_compute. reflexivity. Qed.
+
+Lemma gen_photos_plain : plain (lc_kind gen_cfg) (lc_alts gen_cfg) "PHOTOS".
+Proof. vm_compute. reflexivity. Qed.
+Lemma gen_sig : lc_sig gen_cfg = true.
+Proof. reflexivity. Qed.
+Lemma gen_lf : classify (lc_label gen_cfg) (lc_ws gen_cfg) LF = CLf.
+Proof. vm_compute. reflexivity. Qed.
+
+(* ---- the property ---- *)
+
+(* every spelling of every layout of a statement list is read back as exactly that list (string-based construction) *)
+Theorem C02_layout : forall ss its s,
+  file_items (lc_kind gen_cfg) (lc_alts gen_cfg) ss its -> spell (lc_label gen_cfg) (lc_ws gen_cfg) its s ->
+  parse_text gen_cfg s = Some ss.
+Proof. intros ss its s. exact (parse_text_layout gen_cfg ss its s gen_photos_plain). Qed.
+
+(* ... hence two inputs that differ only in layout give the same statements *)
+Theorem C02_layout_invariance : forall ss its1 its2 s1 s2,
+  file_items (lc_kind gen_cfg) (lc_alts gen_cfg) ss its1 -> spell (lc_label gen_cfg) (lc_ws gen_cfg) its1 s1 ->
+  file_items (lc_kind gen_cfg) (lc_alts gen_cfg) ss its2 -> spell (lc_label gen_cfg) (lc_ws gen_cfg) its2 s2 ->
+  parse_text gen_cfg s1 = parse_text gen_cfg s2.
+Proof. intros ss its1 its2 s1 s2 F1 S1 F2 S2. rewrite (C02_layout _ _ _ F1 S1), (C02_layout _ _ _ F2 S2). reflexivity. Qed.
+
+(* ... and the same answer to every query, a query being any function of the parsed statements *)
+Theorem C02_every_query : forall (A : Type) (query : list stmt -> A) ss its1 its2 s1 s2,
+  file_items (lc_kind gen_cfg) (lc_alts gen_cfg) ss its1 -> spell (lc_label gen_cfg) (lc_ws gen_cfg) its1 s1 ->
+  file_items (lc_kind gen_cfg) (lc_alts gen_cfg) ss its2 -> spell (lc_label gen_cfg) (lc_ws gen_cfg) its2 s2 ->
+  option_map query (parse_text gen_cfg s1) = option_map query (parse_text gen_cfg s2).
+Proof. intros A q ss its1 its2 s1 s2 F1 S1 F2 S2. rewrite (C02_layout_invariance _ _ _ _ _ F1 S1 F2 S2). reflexivity. Qed.
+
+(* file-based construction: what the constructor hands to the parser is, file by file, the lines that are not End lines, each
+   closed by LF, plus one LF — whatever the byte-order marks, CR LF / LF line ends and missing final line ends of the files *)
+Theorem C02_constructor : forall fs, Forall file_ok fs ->
+  assemble_cfg gen_cfg (map file_bytes fs) = cat (map kept_text fs).
+Proof. intros fs. exact (assemble_shape gen_cfg fs gen_sig). Qed.
+
+(* ... so the files give the statement list of which their kept lines spell a layout *)
+Theorem C02_packaging : forall fs ss its, Forall file_ok fs ->
+  file_items (lc_kind gen_cfg) (lc_alts gen_cfg) ss its -> spell (lc_label gen_cfg) (lc_ws gen_cfg) its (cat (map kept_text fs)) ->
+  parse_files gen_cfg (map file_bytes fs) = Some ss.
+Proof. intros fs ss its. exact (parse_files_layout gen_cfg fs ss its gen_sig gen_photos_plain). Qed.
+
+(* ... and what one file contributes does not depend on the files around it *)
+Theorem C02_files_independent : forall t1 t2,
+  scan_text gen_cfg ((t1 ++ String LF "") ++ t2) = (scan_text gen_cfg (t1 ++ String LF "") ++ scan_text gen_cfg t2)%list.
+Proof. exact (scan_kept gen_cfg gen_lf). Qed.
+
+(* layouts of bodies concatenate (statements split over files at any statement boundary) *)
+Theorem C02_split : forall s1 i1 s2 i2,
+  body_items (lc_kind gen_cfg) (lc_alts gen_cfg) s1 i1 -> body_items (lc_kind gen_cfg) (lc_alts gen_cfg) s2 i2 ->
+  body_items (lc_kind gen_cfg) (lc_alts gen_cfg) (s1 ++ s2) (i1 ++ i2).
+Proof. exact (body_items_app (lc_kind gen_cfg) (lc_alts gen_cfg)). Qed.
+
+(* F16b: dropping End lines is NOT harmless when a parameter is the word End alone on a wrapped line: the same content, as a
+   string and as a file, gives different statements *)
+Definition f16b_text : string :=
+  "Decay B0" ++ String LF "1.0 K+ pi- HELAMP a" ++ String LF "End" ++ String LF "2.0;" ++ String LF "Enddecay" ++ String LF "".
+Theorem C02_end_parameter_refuted : parse_text gen_cfg f16b_text <> parse_files gen_cfg [f16b_text].
+Proof. vm_compute. discriminate. Qed.
+
+(* ---- non-vacuity ---- *)
+Definition ex_ss : list stmt :=
+  [SAlias "a" "b";
+   SDecay "B0" [{| d_bf := "1.0"; d_fs := ["K+"; "pi-"]; d_photos := true; d_model := MName "PHSP" (Some [PLit "1.0"; PLabel "x"]) |}]].
+Definition ex_its : list item :=
+  [INl; IWord "Alias"; IWord "a"; IWord "b"; INl; INl;
+   IWord "Decay"; IWord "B0"; INl; IWord "1.0"; IWord "K+"; IWord "pi-"; IWord "PHOTOS"; IWord "PHSP"; IWord "1.0"; IComma; INl; IWord "x"; ISemi; ISemi; INl;
+   IWord "Enddecay"; INl; IWord "End"; INl].
+Example ex_layout : file_items (lc_kind gen_cfg) (lc_alts gen_cfg) ex_ss ex_its.
+Proof.
+  refine (fi_end _ _ 1 ex_ss
+    [IWord "Alias"; IWord "a"; IWord "b"; INl; INl;
+     IWord "Decay"; IWord "B0"; INl; IWord "1.0"; IWord "K+"; IWord "pi-"; IWord "PHOTOS"; IWord "PHSP"; IWord "1.0"; IComma; INl; IWord "x"; ISemi; ISemi; INl;
+     IWord "Enddecay"; INl] 0 _).
+  refine (bi_cons _ _ (SAlias "a" "b") _ (IWord "Alias" :: [IWord "a"; IWord "b"] ++ nls 1)
+    [IWord "Decay"; IWord "B0"; INl; IWord "1.0"; IWord "K+"; IWord "pi-"; IWord "PHOTOS"; IWord "PHSP"; IWord "1.0"; IComma; INl; IWord "x"; ISemi; ISemi; INl;
+     IWord "Enddecay"; INl] _ _).
+  - apply (si_simple _ _ (SAlias "a" "b") "Alias" [IWord "a"; IWord "b"] 1); [reflexivity|exact I].
+  - refine (bi_cons _ _ _ [] (IWord "Decay" :: IWord "B0" :: nls 0 ++ concat [IWord "1.0" :: map IWord ["K+"; "pi-"] ++ [IWord "PHOTOS"] ++ (IWord "PHSP" :: [IWord "1.0"; IComma; INl; IWord "x"] ++ semis 1) ++ nls 0] ++ IWord "Enddecay" :: nls 0) [] _ (bi_nil _ _)).
+    refine (si_decay _ _ "B0" _ [IWord "1.0" :: map IWord ["K+"; "pi-"] ++ [IWord "PHOTOS"] ++ (IWord "PHSP" :: [IWord "1.0"; IComma; INl; IWord "x"] ++ semis 1) ++ nls 0] 0 0 _).
+    constructor; [|constructor].
+    refine (li _ _ "1.0" ["K+"; "pi-"] true _ _ 0 _ _ _ _).
+    + reflexivity.
+    + repeat constructor; vm_compute; (reflexivity || discriminate).
+    + refine (mi_opts _ _ "PHSP" [PLit "1.0"; PLabel "x"] _ 1 _ _ _).
+      * vm_compute. reflexivity.
+      * apply (oi_word (PLit "1.0")); [reflexivity|]. apply oi_comma, oi_nl. apply (oi_word (PLabel "x")); [reflexivity|]. constructor.
+      * discriminate.
+    + exact I.
+Qed.
+Example ex_parse : parse_items (lc_kind gen_cfg) (lc_alts gen_cfg) ex_its = Some ex_ss.
+Proof. exact (parse_file_items _ _ gen_photos_plain _ _ ex_layout). Qed.
+
+Example ex_spell : spell (lc_label gen_cfg) (lc_ws gen_cfg) [IWord "Alias"; IWord "a"; ISemi; INl; INl; INl]
+                         ("Alias" ++ String TAB " a;  # c" ++ String LF "" ++ String CR (String LF "")).
+Proof.
+  apply (sp_word _ _ "Alias"); [discriminate|vm_compute; tauto|vm_compute; discriminate|].
+  apply sp_ws; [vm_compute; reflexivity|]. apply sp_ws; [vm_compute; reflexivity|].
+  apply (sp_word _ _ "a" (";  # c" ++ String LF (String CR (String LF "")))); [discriminate|vm_compute; tauto|vm_compute; discriminate|].
+  apply (sp_sep _ _ ";" ISemi); [vm_compute; reflexivity|].
+  apply sp_ws; [vm_compute; reflexivity|]. apply sp_ws; [vm_compute; reflexivity|].
+  apply (sp_comment _ _ "#" " c"); [vm_compute; reflexivity|vm_compute; tauto|].
+  apply sp_crlf; [vm_compute; reflexivity|]. constructor.
+Qed.
+
+Example ex_files : parse_files gen_cfg [BOM ++ "Alias a b" ++ String CR (String LF ("End # of file 1" ++ String CR (String LF "")));
+                                        "Decay B0" ++ String LF " 1.0 K+ pi- PHOTOS PHSP 1.0," ++ String LF "  x;; # c" ++ String LF "Enddecay" ++ String LF "End"]
+                   = Some ex_ss.
+Proof. vm_compute. reflexivity. Qed.
+
+Print Assumptions C02_config.
+Print Assumptions C02_layout.
+Print Assumptions C02_layout_invariance.
+Print Assumptions C02_every_query.
+Print Assumptions C02_constructor.
+Print Assumptions C02_packaging.
+Print Assumptions C02_files_independent.
+Print Assumptions C02_split.
+Print Assumptions C02_end_parameter_refuted.
